@@ -209,3 +209,100 @@ Section Run.
     exists d', ds', n', its'. rewrite H1, run_done. auto.
   Qed.
 End Run.
+
+(* ================================================================== C. the consumer empties the queue *)
+Definition popq (d : st) (rest : list entry) (en : entry) : st :=
+  {| q := rest; closed := closed d; cl := cl d; clock := clock d; pc := CIdle; puts := puts d;
+     got := got d ++ [(e_id en, clock d)]; ends := ends d; removed := removed d |}.
+
+Lemma relI_emit C tbl g it : relI C tbl g it -> item_to_emit tbl g = Some it.
+Proof.
+  destruct g as [e|f t], it as [r|a b]; simpl; try contradiction.
+  - intros [H _]. now rewrite H.
+  - intros [[H1 _] [H2 _]]. now rewrite H1, H2.
+Qed.
+
+Lemma emit_nofilter full rec root ct it :
+  emit_filtered None full rec root ct it = emit full rec root ct it.
+Proof.
+  unfold emit_filtered. destruct (emit full rec root ct it) as [evs stop]. cbn [fst snd]. f_equal.
+  induction evs as [|e evs IH]; [reflexivity|]. simpl. now rewrite IH.
+Qed.
+
+Lemma three_steps delay d en rest :
+  q d = en :: rest -> pc d = CIdle -> closed d = false -> e_tins en + delay <= clock d ->
+  exists d1 d2, step delay d GetEnter = Some d1 /\ step delay d1 GetDelay = Some d2 /\
+                step delay d2 GetPop = Some (popq d rest en).
+Proof.
+  intros Hq Hpc Hcl Ht. destruct d as [qq c0 cl0 ck pc0 pu go en0 rm]. cbn in *. subst.
+  eexists. eexists. split; [reflexivity|]. cbn.
+  assert (Hle : N.leb (e_tins en + delay) ck = true) by (apply N.leb_le; exact Ht).
+  rewrite Hle, orb_true_r. split; [reflexivity|]. cbn. now rewrite N.eqb_refl.
+Qed.
+
+Section Loop.
+  Variable P : pcfg.
+  Hypothesis HF : pc_filter P = None.
+  Let C := pc_reader P.
+  Let delay := pc_delay P.
+
+  Definition set_emit (s : pstate) (b : st * rst) (evs : list nevent) (stop : bool) : pstate :=
+    {| p_world := p_world s; p_k := p_k s; p_r := p_r s; p_buf := b; p_tbl := p_tbl s; p_next := p_next s;
+       p_out := p_out s ++ evs; p_stopped := stop |}.
+
+  Lemma emit_step s d rs en rest git eit :
+    p_buf s = (d, rs) -> p_stopped s = false ->
+    q d = en :: rest -> pc d = CIdle -> closed d = false -> e_tins en + delay <= clock d ->
+    item_of (items rs) (e_id en) = Some git -> item_to_emit (p_tbl s) git = Some eit ->
+    pstep P s AEmit =
+    let r := emit (pc_full P) (c_recursive C) (c_root C) (content (w_fs (p_world s))) eit in
+    Done (set_emit s (popq d rest en, rs) (fst r) (snd r), OEvents (fst r)).
+  Proof.
+    intros Hb Hs Hq Hpc Hcl Ht Hit Hem. unfold pstep. rewrite Hs, Hb.
+    destruct (three_steps delay d en rest Hq Hpc Hcl Ht) as [d1 [d2 [H1 [H2 H3]]]].
+    fold delay. cbn [gstep]. rewrite H1. cbn [gstep]. rewrite H2. cbn [gstep]. rewrite H3.
+    unfold delivered. cbn [fst snd got popq]. rewrite map_app, items_of_app. cbn [map fst].
+    rewrite items_of_cons, Hit. cbn [items_of flat_map app]. rewrite rev_app_distr. cbn [rev app].
+    rewrite Hem. fold C. rewrite HF, emit_nofilter.
+    destruct (emit (pc_full P) (c_recursive C) (c_root C) (content (w_fs (p_world s))) eit) as [evs stop].
+    reflexivity.
+  Qed.
+
+  Lemma emit_stopped s n acc : p_stopped s = true ->
+    prun P s (repeat AEmit n) acc = Done (s, acc ++ repeat OSkip n).
+  Proof.
+    intros Hs. revert acc. induction n as [|n IH]; intros acc; simpl; [now rewrite app_nil_r|].
+    rewrite Hs. rewrite IH. now rewrite <- app_assoc.
+  Qed.
+
+  Lemma emit_loop : forall K raws s d rs acc,
+    p_buf s = (d, rs) -> pc d = CIdle -> closed d = false ->
+    Forall2 (fun en it => item_of (items rs) (e_id en) = Some it) (q d) K ->
+    (forall en, In en (q d) -> e_tins en + delay <= clock d) ->
+    Forall2 (relI C (p_tbl s)) K raws ->
+    exists s' obs, prun P s (repeat AEmit (length K)) acc = Done (s', obs) /\
+      p_out s' = p_out s ++ (if p_stopped s then []
+                             else emit_all (pc_full P) (c_recursive C) (c_root C) (content (w_fs (p_world s))) raws).
+  Proof.
+    induction K as [|git K IH]; intros raws s d rs acc Hb Hpc Hcl HQ Ht HR.
+    - inversion HR; subst. exists s, acc. split; [reflexivity|]. destruct (p_stopped s); now rewrite app_nil_r.
+    - destruct (p_stopped s) eqn:Hs.
+      { exists s, (acc ++ repeat OSkip (length (git :: K))). split; [now apply emit_stopped | now rewrite app_nil_r]. }
+      inversion HR as [|? eit ? raws' Hr1 HR']; subst. inversion HQ as [|en ? rest ? Hit HQ' Hqd]; subst.
+      symmetry in Hqd.
+      assert (Hstep := emit_step s d rs en rest git eit Hb Hs Hqd Hpc Hcl
+                                 (Ht en ltac:(rewrite Hqd; left; reflexivity)) Hit (relI_emit _ _ _ _ Hr1)).
+      cbn [length repeat prun]. rewrite Hstep. cbn zeta.
+      cbn [emit_all].
+      destruct (emit (pc_full P) (c_recursive C) (c_root C) (content (w_fs (p_world s))) eit) as [evs stop] eqn:Ee.
+      cbn [fst snd].
+      destruct (IH raws' (set_emit s (popq d rest en, rs) evs stop) (popq d rest en) rs (acc ++ [OEvents evs]))
+        as [s' [obs [Hrun Hout]]]; try reflexivity.
+      + exact Hcl.
+      + exact HQ'.
+      + intros en' Hin. cbn [popq q clock] in *. apply Ht. rewrite Hqd. now right.
+      + exact HR'.
+      + exists s', obs. split; [exact Hrun|]. rewrite Hout. cbn [set_emit p_out p_stopped p_world].
+        now rewrite <- app_assoc.
+  Qed.
+End Loop.
